@@ -144,7 +144,7 @@ func c20Run(rc *RunCtx, params any) {
 
 						return
 					}
-					time.Sleep(time.Duration(1+(i*7+w*3)%9) * time.Millisecond)
+					s.Sleep(time.Duration(1+(i*7+w*3)%9) * time.Millisecond)
 				}
 			})
 		}
@@ -164,13 +164,13 @@ func c20Run(rc *RunCtx, params any) {
 					u := &upd{ep: ep}
 					upds = append(upds, u)
 					req := p.Request == 1 || (p.Request == 2 && (k+g)%2 == 0)
-					ctx, cancel := context.WithTimeout(context.Background(), 3*time.Minute)
+					ctx, cancel := context.WithTimeout(context.Background(), s.Uniq(3*time.Minute))
 					u.callSeq = s.Record("op-call", ep, fmt.Sprintf("UpdateKeys request=%v", req), nil)
 					u.err = conn.UpdateKeys(ctx, dtls.KeyUpdateOptions{RequestPeerUpdate: req})
 					cancel()
 					u.retSeq = s.Record("op-ret", ep, fmt.Sprintf("UpdateKeys err=%v", u.err), nil)
 					u.done = true
-					time.Sleep(time.Duration(2+k) * time.Millisecond)
+					s.Sleep(time.Duration(2+k) * time.Millisecond)
 				}
 			})
 		}
